@@ -1,10 +1,111 @@
-import StraxModel.Model.Rechunk
+import StraxModel.Lemmas.ChunkAlg
+/-
+  Property C07 — splitting, concatenating, merging and rechunking obey the laws of chunking.
+  Only property theorems and non-vacuity examples live here; the work is in Lemmas/ChunkAlg.lean.
+-/
 namespace Strax.C07
 open Strax
 
+/-! ## 1. `split_array`: conservation, strictness, totality of the early mode -/
+
 theorem splitArray_conserves (data : List Row) (t : Int) (early : Bool) (l r : List Row) (t' : Int)
-    (h : splitArray data t early = .ok (l, r, t')) : l ++ r = data := by
-  unfold splitArray at h
-  grind [List.take_append_drop]
+    (h : splitArray data t early = .ok (l, r, t')) : l ++ r = data :=
+  splitArray_append h
+
+example : splitArray [⟨0,3,0⟩, ⟨2,5,1⟩, ⟨7,9,2⟩] 6 false = .ok ([⟨0,3,0⟩, ⟨2,5,1⟩], [⟨7,9,2⟩], 6) := by decide
+
+theorem splitArray_strict_time (data : List Row) (t : Int) (l r : List Row) (t' : Int)
+    (h : splitArray data t false = .ok (l, r, t')) : t' = t :=
+  splitArray_strict h
+
+/-- with `allow_early_split=True` the call never fails: the `none => .error .other` branch of the
+model (an `IndexError` in the code) is unreachable, and so is `CannotSplit`. -/
+theorem splitArray_early_total (data : List Row) (t : Int) :
+    ∃ l r t', splitArray data t true = .ok (l, r, t') := by
+  obtain ⟨⟨l, r, t'⟩, h⟩ := splitArray_early_ok data t
+  exact ⟨l, r, t', h⟩
+
+example : splitArray [⟨0,3,0⟩, ⟨3,6,1⟩, ⟨5,8,2⟩] 7 true = .ok ([⟨0,3,0⟩], [⟨3,6,1⟩, ⟨5,8,2⟩], 3) := by decide
+
+/-- without early splitting the only failure is `CannotSplit` -/
+theorem splitArray_strict_error (data : List Row) (t : Int) (e : Err)
+    (h : splitArray data t false = .error e) : e = .cannotSplit :=
+  Strax.splitArray_strict_error h
+
+example : splitArray [⟨0,3,0⟩, ⟨2,5,1⟩, ⟨7,9,2⟩] 4 false = .error .cannotSplit := by decide
+
+/-! ## 2. every row is entirely on one side -/
+
+theorem splitArray_separates (data : List Row) (t : Int) (early : Bool) (l r : List Row) (t' : Int)
+    (hs : SortedByTime data) (h : splitArray data t early = .ok (l, r, t')) :
+    (∀ x ∈ l, x.endt ≤ t') ∧ (∀ x ∈ r, t' ≤ x.time) :=
+  splitArray_sep hs h
+
+example : SortedByTime [⟨0,3,0⟩, ⟨2,5,1⟩, ⟨5,9,2⟩] ∧
+    splitArray [⟨0,3,0⟩, ⟨2,5,1⟩, ⟨5,9,2⟩] 5 false = .ok ([⟨0,3,0⟩, ⟨2,5,1⟩], [⟨5,9,2⟩], 5) := by decide
+
+/-! ## 3. refusal happens exactly when a row straddles `t`
+
+`PositiveRows data` is not needed for this law (it is needed for §4), so the theorem is stated
+without it; `splitArray_refuses_iff'` is the version with the full hypothesis list of DESIGN §6. -/
+
+theorem splitArray_refuses_iff (data : List Row) (t : Int)
+    (hs : SortedByTime data) (hnn : ∀ r ∈ data, 0 ≤ r.time) :
+    splitArray data t false = .error .cannotSplit ↔ ∃ r ∈ data, r.straddles t :=
+  ⟨straddler_of_splitArray_refuses hnn, splitArray_refuses_of_straddler hs⟩
+
+theorem splitArray_refuses_iff' (data : List Row) (t : Int)
+    (hs : SortedByTime data) (_hpos : PositiveRows data) (hnn : ∀ r ∈ data, 0 ≤ r.time) :
+    splitArray data t false = .error .cannotSplit ↔ ∃ r ∈ data, r.straddles t :=
+  splitArray_refuses_iff data t hs hnn
+
+/-- equivalently: without a straddler the strict split succeeds at exactly `t` -/
+theorem splitArray_ok_iff (data : List Row) (t : Int)
+    (hs : SortedByTime data) (hnn : ∀ r ∈ data, 0 ≤ r.time) :
+    (∃ l r, splitArray data t false = .ok (l, r, t)) ↔ ¬ ∃ r ∈ data, r.straddles t := by
+  rw [← splitArray_refuses_iff data t hs hnn]
+  constructor
+  · rintro ⟨l, r, h⟩ h'
+    rw [h] at h'
+    cases h'
+  · intro hne
+    cases hres : splitArray data t false with
+    | error e =>
+      have := Strax.splitArray_strict_error hres
+      subst this
+      exact absurd hres hne
+    | ok v =>
+      obtain ⟨l, r, t'⟩ := v
+      have := splitArray_strict hres
+      subst this
+      exact ⟨l, r, rfl⟩
+
+example : SortedByTime [⟨0,3,0⟩, ⟨2,5,1⟩, ⟨7,9,2⟩] ∧ PositiveRows [⟨0,3,0⟩, ⟨2,5,1⟩, ⟨7,9,2⟩] ∧
+    (∀ r ∈ [(⟨0,3,0⟩ : Row), ⟨2,5,1⟩, ⟨7,9,2⟩], 0 ≤ r.time) ∧
+    (∃ r ∈ [(⟨0,3,0⟩ : Row), ⟨2,5,1⟩, ⟨7,9,2⟩], r.straddles 4) := by decide
+
+/-- The non-negativity hypothesis is necessary: `latest_end_seen` starts at `-1`, so on negative
+times the code refuses although no row straddles `t`. -/
+theorem splitArray_refuses_iff_needs_nonneg :
+    SortedByTime [⟨-10,-8,0⟩, ⟨-5,-4,1⟩] ∧ PositiveRows [⟨-10,-8,0⟩, ⟨-5,-4,1⟩] ∧
+    splitArray [⟨-10,-8,0⟩, ⟨-5,-4,1⟩] (-6) false = .error .cannotSplit ∧
+    ¬ ∃ r ∈ [(⟨-10,-8,0⟩ : Row), ⟨-5,-4,1⟩], r.straddles (-6) := by decide
+
+/-! ## 4. the early split time is the latest admissible one -/
+
+theorem splitArray_early_latest (data : List Row) (t : Int) (l r : List Row) (t' : Int)
+    (hs : SortedByTime data) (hpos : PositiveRows data) (hnn : ∀ r ∈ data, 0 ≤ r.time)
+    (h : splitArray data t true = .ok (l, r, t')) :
+    t' ≤ t ∧ (∀ τ, t' < τ → τ ≤ t → ∃ r ∈ data, r.straddles τ) ∧ (¬ ∃ r ∈ data, r.straddles t') := by
+  refine ⟨splitArray_time_le h, splitArray_early_chain hpos hnn h, ?_⟩
+  have hsep := splitArray_sep hs h
+  have := no_straddler_of_sep hsep.1 hsep.2
+  rwa [splitArray_append h] at this
+
+example : SortedByTime [⟨0,3,0⟩, ⟨3,5,1⟩, ⟨4,8,2⟩, ⟨9,10,3⟩] ∧
+    PositiveRows [⟨0,3,0⟩, ⟨3,5,1⟩, ⟨4,8,2⟩, ⟨9,10,3⟩] ∧
+    (∀ r ∈ [(⟨0,3,0⟩ : Row), ⟨3,5,1⟩, ⟨4,8,2⟩, ⟨9,10,3⟩], 0 ≤ r.time) ∧
+    splitArray [⟨0,3,0⟩, ⟨3,5,1⟩, ⟨4,8,2⟩, ⟨9,10,3⟩] 7 true
+      = .ok ([⟨0,3,0⟩], [⟨3,5,1⟩, ⟨4,8,2⟩, ⟨9,10,3⟩], 3) := by decide
 
 end Strax.C07
